@@ -276,4 +276,13 @@ def rule_writers_close_their_files(ctx):
     protocol.row_writer_close_table(ctx, "O12.8")
 
 
-RULES = [rule_dialect, rule_accepted_configurations, rule_newline, rule_quoting_modes, rule_write_rows_agrees_with_write_row, rule_field_size_limit, rule_writers_close_their_files, rule_module_state]
+def rule_rows_end_with_the_declared_line_delimiter(ctx):
+    """O14.1 (shared with C14): the writer ends every row with exactly the declared line delimiter - a row ended by CR CR
+    or CR LF under "cr" reads back as two rows."""
+    from . import protocol
+
+    ctx.res.minimum("O14.1", 1)
+    protocol.writer_table(ctx, "O14.1", {"reset", "delimiter"}, "delimited")
+
+
+RULES = [rule_rows_end_with_the_declared_line_delimiter, rule_dialect, rule_accepted_configurations, rule_newline, rule_quoting_modes, rule_write_rows_agrees_with_write_row, rule_field_size_limit, rule_writers_close_their_files, rule_module_state]
